@@ -83,7 +83,8 @@ class MeshLine1(MeshSimplex, Mesh):
         # an element listed twice is still split once
         marked = np.unique(marked).astype(np.int32)
 
-        mid = range(len(marked)) + np.max(t) + 1
+        # the new points are appended after all existing ones
+        mid = range(len(marked)) + np.int32(p.shape[1])
         nonmarked = np.setdiff1d(np.arange(t.shape[1]), marked)
         newp = np.hstack((p, p[:, t[:, marked]].mean(1)))
         newt = np.vstack((t[0, marked], mid))
